@@ -407,6 +407,13 @@ pub fn gen_world(rng: &mut Rng, o: &GenOpts) -> CliWorld {
       }
     }
   }
+  // rule ids of a pack: `pack.<id>`, all agreeing up to their last dot (test and snapshot files
+  // are named after the id)
+  if o.with_tests && rng.chance(0.12) {
+    for sp in specs.iter_mut() {
+      sp.id = format!("pack.{}", sp.id);
+    }
+  }
   // randomly generated rule trees with inter-dependent local utilities
   let mut gen_n = 0;
   for l in &langs {
